@@ -24,6 +24,19 @@ type SpecParam struct {
 	Type string // Go type expression text
 }
 
+// TypeInvClause is an object invariant of every object of a struct type (self denotes a pointer to it).
+type TypeInvClause struct {
+	Type   string
+	Clause Clause
+}
+
+// OnStoreClause: at every store to the named field (of any object of that struct type) or to an element of the named
+// slice parameter, the expression must hold in the state just before the store; `value` denotes what is stored.
+type OnStoreClause struct {
+	Target string
+	Clause Clause
+}
+
 // SpecFn is a pure ghost function expanded inline where used.
 type SpecFn struct {
 	Name   string
@@ -63,6 +76,9 @@ type Contract struct {
 	Records  []Clause            // ghost instrumentation: assumed after calls, not checked against the body
 	Stable   []string            // package-level variables assumed not to be modified by uncontracted calls
 	Dead     map[string]bool     // returns claimed unreachable ("ret6")
+	TypeInv  []TypeInvClause     // objinv T [label] expr-over-self: assumed wherever a field of a *T that the clause mentions is addressed
+	ObjInv   []Clause            // object invariants: assumed at entry and again after every call (all writers of the fields re-establish them: onstore obligations + the onstore-coverage obligation)
+	OnStore  []OnStoreClause     // obligations attached to stores: "onstore Type.Field [label] expr" / "onstore name[*] [label] expr"
 }
 
 type ContractSet struct {
@@ -265,6 +281,30 @@ func (cs *ContractSet) parseContractFile(path, pkgPath string, trusted bool) err
 				cur.Replay = rest
 			case "nosafety":
 				cur.NoSafety = true
+			case "objinv":
+				if f := strings.SplitN(rest, " ", 2); len(f) == 2 && !strings.HasPrefix(f[0], "[") && !strings.ContainsAny(f[0], "()=<>&|!.") {
+					c, err := parseClause(strings.TrimSpace(f[1]), src)
+					if err != nil {
+						return err
+					}
+					cur.TypeInv = append(cur.TypeInv, TypeInvClause{Type: f[0], Clause: c})
+					break
+				}
+				c, err := parseClause(rest, src)
+				if err != nil {
+					return err
+				}
+				cur.ObjInv = append(cur.ObjInv, c)
+			case "onstore":
+				f := strings.SplitN(rest, " ", 2)
+				if len(f) != 2 {
+					return fmt.Errorf("%s: onstore <target> [label] expr", src)
+				}
+				c, err := parseClause(strings.TrimSpace(f[1]), src)
+				if err != nil {
+					return err
+				}
+				cur.OnStore = append(cur.OnStore, OnStoreClause{Target: f[0], Clause: c})
 			case "dead":
 				// dead retN "reason": that return is claimed unreachable; the claim is an obligation (instead of the
 				// reachability guard that every other return gets)
